@@ -18,7 +18,7 @@ LEVEL = ("For generated sets of two-level molecules (read directly after build()
          "signatures, the same system supplied in other energy units / built under another units context with the "
          "same internal matrix, a relabelled copy through basis-free invariants (sorted spectrum, one- and two-photon "
          "moments <0|D H^k D|0>, <0|DD H^k DD|0>), and couplings from positions and dipoles with the SI formula."
-         " Later additions: the electronic Hamiltonian accessor, rebuild() in a units context, the general coupling entry point calculate_resonance_coupling, Hamiltonian diagonalised and brought back in units as a use before reading.")
+         " Later additions: the electronic Hamiltonian accessor, rebuild() in a units context, the general coupling entry point calculate_resonance_coupling, Hamiltonian diagonalised and brought back in units as a use before reading. Round five: transitions named by index and by state object; electronic Hamiltonian asked for in units; two molecules at one place.")
 NOTE = ("Two-level molecules only (three-level molecules are outside 'Frenkel exciton'); order of states inside a "
         "band is read from elsigs, not claimed; N <= 5 quick / 6 thorough (<= 22 states); units with a multiplicative conversion only "
         "(nm cannot express a zero ground-state energy).")
